@@ -176,7 +176,7 @@ pub fn run(opts: &Opts) -> i32 {
     let mut ev = Evidence::new(
         PROP,
         "exploration",
-        "cases = generated package graphs (2-7 packages, DAG imports, structs/enums/traits/impls/generics across packages), each as a legal twin and as the same project with exactly one injected illegality (not-imported access, missing package, misnamed package, import cycle, self import, cycle via Main, orphan impl, duplicate impl, unknown item), compiled whole-program and package-by-package under K discovery orders (entropy x readdir permutation x argument/build order); reference model: twin accepted, illegal rejected with >= 1 diagnostic, by both pipelines, identically for every order. distinct = distinct (illegal project, order); all cases are non-trivial (>= 2 packages)",
+        "cases = generated package graphs (2-7 packages, DAG imports, structs/enums/traits/impls/generics across packages), each as a legal twin and as the same project with exactly one injected illegality out of 44 kinds (use of a package that is not imported by this package or by this file in 17 syntactic positions, missing / misnamed package, import cycle, self import, cycle via Main, a misnamed package inside a cycle through its directory name, orphan impl for a foreign struct / foreign generic at a local argument / builtin type, inherent impl for a foreign or builtin type, duplicate impl with local or foreign trait / type in one or two files, unknown item), compiled whole-program and package-by-package under K discovery orders (entropy x readdir permutation x argument/build order); reference model: twin accepted, illegal rejected with >= 1 diagnostic, by both pipelines, identically for every order. distinct = distinct (illegal project, order); all cases are non-trivial (>= 2 packages)",
     );
     ev.components_real = harness::REAL_COMPONENTS.iter().map(|s| s.to_string()).collect();
     ev.components_stub = harness::STUB_COMPONENTS.iter().map(|s| s.to_string()).collect();
